@@ -197,11 +197,38 @@ fn servers() -> Vec<Srv> {
 
 fn evaluate(srv: &Srv, req: &[u8], tp: Tp) -> (String, Option<(String, Value)>) {
     quandary::server::verif_hooks::set_tsig_unix_time(Some(TSIG_TIME));
+    let resp = qd::handle(&srv.server, req, qd::localhost(), tp);
+    judge(srv.size, req, resp, false)
+}
+
+/// The same request sent twice over UDP to a server whose rate limiter allows
+/// one response per stream and second (slip 1, clock frozen): the second
+/// response is the slipped (truncated) form, and the statement holds for it
+/// as for any response - one OPT exactly when an OPT was reached, BADVERS for
+/// a version other than 0.
+fn evaluate_limited(server: &mut Server<Cat>, size: u16, req: &[u8]) -> (String, Option<(String, Value)>) {
+    quandary::server::verif_hooks::set_tsig_unix_time(Some(TSIG_TIME));
+    quandary::server::verif_hooks::set_rrl_elapsed(Some(std::time::Duration::from_secs(5)));
+    let mut p = quandary::server::RrlParams::new(1, 1, 1, 1).expect("rrl params");
+    p.set_slip(1);
+    p.set_size(7).expect("rrl size");
+    server.set_rrl_params(Some(p));
+    let first = qd::handle(server, req, qd::localhost(), Tp::Udp);
+    let (c1, v1) = judge(size, req, first, false);
+    if v1.is_some() {
+        return (format!("first:{c1}"), v1);
+    }
+    let second = qd::handle(server, req, qd::localhost(), Tp::Udp);
+    let (c2, v2) = judge(size, req, second, true);
+    (format!("limited:{c2}"), v2)
+}
+
+fn judge(size: u16, req: &[u8], resp: Result<Option<Vec<u8>>, String>, limited: bool) -> (String, Option<(String, Value)>) {
     let cfg = ScanCfg { keys: &[], now: TSIG_TIME };
     let scans = model::scan_all(req, &cfg);
     let first = &scans[0];
     let tag = format!("{}{}", first.why, if first.opt_reached { "[opt reached]" } else { "" });
-    let resp = match qd::handle(&srv.server, req, qd::localhost(), tp) {
+    let resp = match resp {
         Ok(r) => r,
         Err(p) => return (format!("{tag} -> panic"), Some((panic_key(&p), json!({"panic": p})))),
     };
@@ -209,6 +236,11 @@ fn evaluate(srv: &Srv, req: &[u8], tp: Tp) -> (String, Option<(String, Value)>) 
         return (format!("no-demand:{tag}"), None);
     }
     let Some(resp) = resp else {
+        if limited {
+            // a limited response may be dropped (it is not with slip 1, which
+            // is C26's subject)
+            return (format!("{tag} -> dropped"), None);
+        }
         return (format!("{tag} -> no-response"), Some(("no-response".into(), json!({}))));
     };
     let obs = match model::observe(&resp) {
@@ -221,7 +253,7 @@ fn evaluate(srv: &Srv, req: &[u8], tp: Tp) -> (String, Option<(String, Value)>) 
         // The RCODE is C09's business only for the OPT's own problems
         // (version, owner); the rest of the FORMERR rules belong to C08.
         let r1 = if sc.why.starts_with("opt:") { model::judge_rcode(sc, &obs) } else { Ok(()) };
-        let r2 = model::judge_opt(sc, &obs, srv.size);
+        let r2 = model::judge_opt(sc, &obs, size);
         match (r1, r2) {
             (Ok(()), Ok(())) => return (class, None),
             (Err(e), _) => err = err.or(Some(format!("{}:{e}", sc.why))),
@@ -237,18 +269,31 @@ fn evaluate(srv: &Srv, req: &[u8], tp: Tp) -> (String, Option<(String, Value)>) 
         "observed": {"rcode": obs.ext, "an": obs.an, "ns": obs.ns, "n_opt": obs.n_opt, "n_opt_additional": obs.n_opt_additional,
                      "opt": obs.opt.as_ref().map(|(o, cl, ttl, rdl)| json!({"owner": wire::name_text(o), "class": cl, "ttl_field": format!("{ttl:#010x}"), "rdlength": rdl}))},
         "response": hex(&resp),
+        "rate_limited_second_response": limited,
     });
     (class, Some((err.unwrap(), detail)))
 }
 
+fn limited_server(catalog: &std::sync::Arc<Cat>, size: u16) -> Server<Cat> {
+    let mut s = Server::new(catalog.clone());
+    s.set_edns_udp_payload_size(size).expect("edns size");
+    s
+}
+
 pub fn run(ctx: Ctx) -> ! {
     let srvs = servers();
+    let catalog = std::sync::Arc::new(qd::catalog_of(vec![fixtures::std_zone(), big9_zone()]));
     if let Some(case) = ctx.replay_case() {
         let req = unhex(case["request"].as_str().unwrap_or(""));
         let size = case["server_size"].as_u64().unwrap_or(1232) as u16;
         let srv = srvs.iter().find(|s| s.size == size).unwrap_or(&srvs[1]);
         let tp = Tp::from_name(case["tp"].as_str().unwrap_or("udp"));
-        let (class, v) = evaluate(srv, &req, tp);
+        let (class, v) = if case["rate_limited"].as_bool() == Some(true) {
+            let mut s2 = limited_server(&catalog, size);
+            evaluate_limited(&mut s2, size, &req)
+        } else {
+            evaluate(srv, &req, tp)
+        };
         eprintln!("replay: {class}");
         let mut l = ctx.local();
         l.tick();
@@ -276,8 +321,26 @@ pub fn run(ctx: Ctx) -> ! {
     ctx.par_for_each(&lays, |l: &mut Local, lay| {
         let has_a = lay.iter().any(|x| x.1 == Kind::OptA);
         let vs: &[OptParams] = if has_a { &variants } else { &fixed };
+        let mut limited = limited_server(&catalog, 1232);
         for p in vs {
             let req = build(lay, p, &tsig_rd);
+            {
+                l.tick();
+                let (class, v) = evaluate_limited(&mut limited, 1232, &req);
+                let full = || {
+                    json!({
+                        "request": hex(&req), "server_size": 1232, "tp": "udp", "rate_limited": true,
+                        "layout": layout_text(lay),
+                        "opt": if has_a { json!({"owner": OWNERS[p.owner].0, "class": p.class, "ext_rcode_octet": p.ext, "version": p.version, "flags": p.flags, "rdata": RDATAS[p.rdata].0}) } else { Value::Null },
+                    })
+                };
+                l.outcome(&class, full);
+                if let Some((key, detail)) = v {
+                    let mut cse = full();
+                    cse["detail"] = detail;
+                    l.violation(&key, cse);
+                }
+            }
             for srv in &srvs {
                 for tp in [Tp::Udp, Tp::Tcp] {
                     l.tick();
@@ -337,7 +400,7 @@ pub fn run(ctx: Ctx) -> ! {
     ctx.assume("qvlib::wire decoder is correct; the std fixture zone answers a.t. A with data (so 'no answer data' is observable)");
     ctx.finish(
         "exploration",
-        "query a.t. A + every layout of <= 3 records over {AN,NS,AR} x {ordinary, varied OPT, second OPT, undelimitable, TSIG(unknown key)} (sections in order, <= 1 of each pseudo record) x full product of the varied OPT's owner(5) x class x ext-rcode octet x version octet x flags x RDATA(4) x 3 server payload sizes x {UDP,TCP}; plus a valid OPT whose advertised size takes every value 0..=2100 (and 7 larger ones) x 5 queries with 2-3 KB answers x DO bit x 3 server sizes x {UDP,TCP}; oracle = in-order scanner deciding whether an additional-section OPT was reached + C09 statement",
+        "query a.t. A + every layout of <= 3 records over {AN,NS,AR} x {ordinary, varied OPT, second OPT, undelimitable, TSIG(unknown key)} (sections in order, <= 1 of each pseudo record) x full product of the varied OPT's owner(5) x class x ext-rcode octet x version octet x flags x RDATA(4) x 3 server payload sizes x {UDP,TCP}, and each of these requests twice over UDP to a rate-limited server (second response slipped); plus a valid OPT whose advertised size takes every value 0..=2100 (and 7 larger ones) x 5 queries with 2-3 KB answers x DO bit x 3 server sizes x {UDP,TCP}; oracle = in-order scanner deciding whether an additional-section OPT was reached + C09 statement",
         true,
     )
 }
